@@ -88,6 +88,30 @@ CHECKS = {
         "Trusted: as C03. Lists with duplicate lines are compared at the level of line sets.",
         "DESIGN.md 4/C11",
     ),
+    "C13": (
+        "exploration",
+        "complete enumeration of ordered address pairs (nested chain of all 33 prefix lengths, "
+        "siblings, dirty bases, 25 non-contiguous cubes) x spellings x platforms x five containment "
+        "APIs, groups of <=2/3 members, against bit-algebra containment",
+        "Every ordered pair of a 68-address alphabet through Address.subnet_of, AddressAg.subnet_of, "
+        "functions.subnet_of, `member in member`, every spelling x spelling for a 12-address subset, "
+        "`member in AddrGroup` for all groups of <=2 (quick) / 3 (thorough) members, and Address "
+        "objects carrying group members (soundness only): answer must equal cube containment.",
+        "Trusted: cube algebra (self-tested). `in` may raise TypeError on non-contiguous operands.",
+        "DESIGN.md 4/C13",
+    ),
+    "C14": (
+        "exploration",
+        "complete enumeration of all address lists (order, duplicates) up to a length over an "
+        "18-block alphabet x 2 classes x 2 platforms against exact union equality",
+        "Every list of length <=3 (quick) / <=4 (thorough) over the 15 blocks of a /29 tree plus /0 "
+        "and both /1, and one element longer over an 8-block chain alphabet: output union == input "
+        "union (exact), len(out) <= len(in), ascending, class/platform kept, notes dropped, inputs "
+        "unmodified; non-contiguous and foreign elements refused with TypeError at every position.",
+        "Trusted: cube cover. One known finding (IOS group cannot spell 0.0.0.0/0) is listed in "
+        "known_findings.json.",
+        "DESIGN.md 4/C14",
+    ),
 }
 
 NOT_BUILT = "check not built yet (work in progress, see DESIGN.md section 8 build order)"
